@@ -10,7 +10,7 @@ import (
 )
 
 func init() {
-	Explanations["C01"] = "Decides structural necessary conditions of 'the best chain is valid, heaviest-known and never loses work' in chain.Manager (functions are identified by role: the method calling Store.ApplyBlock is the apply step, the one calling Store.RevertBlock the revert step, the one calling both steps the tip walker): (R1) Manager.tipState is assigned only in the apply/revert steps, after the store call; (R2) every call of the tip walker other than a rollback lies on the true edge of X.SufficientlyHeavierThan(m.tipState) and targets X.Index; (R3) from the error edge of a gated walker call every path to a return passes a rollback walker call whose target was loaded from m.tipState.Index before the first call, and all those returns carry an error; (R4) Store.ApplyBlock is reached only through the success edge of consensus.ValidateBlock(m.tipState, b, *bs) for the block fetched from the store, or through the branch where the stored supplement is non-nil; (R5) Store.AddBlock with a possibly non-nil supplement occurs only after that validation of the same block, or in the documented pre-validated entry; (R6) every access to store, tipState, txpool, onReorg, onPool in Manager methods happens with Manager.mu definitely held (lockset dataflow; unexported helpers inherit the join of their call sites; returned closures start unheld); (R7) outside the apply step and the pre-validated entry, Store.AddState/AddBlock for a submitted block lie on the success edge of consensus.ValidateOrphan for that block and on the passing side of the future-timestamp test; (R8) in the apply step Store.ApplyBlock is reached only on the side of a comparison that established block.ParentID == tipState.Index.ID. (R9) the element store's revert side is the algebraic inverse of its apply side class by class (same check as C02.R1): the supplement that a later ValidateBlock / ApplyBlock reads after a reorg is the one an independent replay would see. (R10) the store's revert step deletes (not overwrites) the best-chain index entry of the reverted height (same check as C03.R4 / C04.R4): after a failed reorg to a longer fork is rolled back, BestIndex above the tip reports nothing, as before. (R11) the store's zero-timestamp shortcut for the ancestor timestamp and core's read of that timestamp are both read as bounds on (parent height − HardforkOak.Height); the two regions must not meet; (R10/C02.R4/C03.R4 also) every path through the store's apply and revert steps passes the Height writer and the best-index writer. NOT decided: consensus validity itself (core), work arithmetic, parent linkage and replay equality of the stored chain, behaviour for duplicated/orphan/mixed batches — these need execution."
+	Explanations["C01"] = "Decides structural necessary conditions of 'the best chain is valid, heaviest-known and never loses work' in chain.Manager (functions are identified by role: the method calling Store.ApplyBlock is the apply step, the one calling Store.RevertBlock the revert step, the one calling both steps the tip walker): (R1) Manager.tipState is assigned only in the apply/revert steps, after the store call; (R2) every call of the tip walker other than a rollback lies on the true edge of X.SufficientlyHeavierThan(m.tipState) and targets X.Index; (R3) from the error edge of a gated walker call every path to a return passes a rollback walker call whose target was loaded from m.tipState.Index before the first call, and all those returns carry an error; (R4) Store.ApplyBlock is reached only through the success edge of consensus.ValidateBlock(m.tipState, b, *bs) for the block fetched from the store, or through the branch where the stored supplement is non-nil; (R5) Store.AddBlock with a possibly non-nil supplement occurs only after that validation of the same block, or in the documented pre-validated entry; (R6) every access to store, tipState, txpool, onReorg, onPool in Manager methods happens with Manager.mu definitely held (lockset dataflow; unexported helpers inherit the join of their call sites; returned closures start unheld); (R7) outside the apply step and the pre-validated entry, Store.AddState/AddBlock for a submitted block lie on the success edge of consensus.ValidateOrphan for that block and on the passing side of the future-timestamp test; (R8) in the apply step Store.ApplyBlock is reached only on the side of a comparison that established block.ParentID == tipState.Index.ID. (R9) the element store's revert side is the algebraic inverse of its apply side class by class (same check as C02.R1): the supplement that a later ValidateBlock / ApplyBlock reads after a reorg is the one an independent replay would see. (R10) the store's revert step deletes (not overwrites) the best-chain index entry of the reverted height (same check as C03.R4 / C04.R4): after a failed reorg to a longer fork is rolled back, BestIndex above the tip reports nothing, as before. (R11) the store's zero-timestamp shortcut for the ancestor timestamp and core's read of that timestamp are both read as bounds on (parent height − HardforkOak.Height); the two regions must not meet; (R10/C02.R4/C03.R4 also) every path through the store's apply and revert steps passes the Height writer and the best-index writer. (R12) every completed iteration of the loop over a submitted batch assigns the variable handed to SufficientlyHeavierThan; (R13) the checks of C11.R2. NOT decided: consensus validity itself (core), work arithmetic, parent linkage and replay equality of the stored chain, behaviour for duplicated/orphan/mixed batches — these need execution."
 
 	register(&Rule{ID: "C01.R1", Prop: "C01", Floor: 2, Doc: "tip-writer: tipState assigned only in the apply/revert steps after the store call", Run: c01r1})
 	register(&Rule{ID: "C01.R2", Prop: "C01", Floor: 2, Doc: "reorg-gate: tip walker called only on the true edge of SufficientlyHeavierThan(m.tipState) for the same state", Run: c01r2})
